@@ -142,8 +142,10 @@ def check_fext(case, ctx):
     model = case['model']
     name = 'fext[%s]' % model
     inc = case['inc']
-    for f in case['forces']:
-        cc.add_force(f['x'], f['thetadeg'], f['fx'], f['ft'], f['fz'], increment=f['inc'])
+    pre = case.get('prelude')
+    for k, f in enumerate(case['forces']):
+        g = dict(f, **pre[k]) if pre else f
+        cc.add_force(g['x'], g['thetadeg'], g['fx'], g['ft'], g['fz'], increment=f['inc'])
     clpt = 'clpt' in model
     with package(name + '.build'):
         cc._rebuild()
@@ -152,6 +154,24 @@ def check_fext(case, ctx):
     for lst in (cc.forces, cc.forces_inc):
         for f in lst:
             f[0] = f[0] * L
+    if pre:
+        # parametric use of one object: the force vector was asked for other point forces before; they are then edited in place
+        # (same number of forces) to the ones under test
+        ctx.label('object:forces-edited-after-first-calc_fext')
+        try:
+            with package(name + '.prelude', accept=(NotImplementedError,)):
+                cc.calc_fext(inc=case['prelude_inc'], silent=True)
+        except NotImplementedError:
+            pass
+        ki = kc = 0
+        for f in case['forces']:
+            new = [f['x'] * L, np.deg2rad(f['thetadeg']), f['fx'], f['ft'], f['fz']]
+            if f['inc']:
+                cc.forces_inc[ki][:] = new
+                ki += 1
+            else:
+                cc.forces[kc][:] = new
+                kc += 1
     kinds = sum([bool(case['forces']), bool(case.get('Fc') or case.get('Nxxtop')), bool(case.get('P') or case.get('P_inc')),
                  bool(case.get('T') or case.get('T_inc')), bool(case.get('pdC')), bool(case.get('thetaTdeg'))])
     ctx.nontrivial = kinds >= 2 and (case['alphadeg'] != 0. or bool(case.get('pdC')) or bool(case.get('thetaTdeg')))
@@ -373,6 +393,10 @@ def _fext_strategy(draw, tier='quick'):
     case = draw(shell_case())
     case['forces'] = draw(st.lists(cforce(), min_size=0, max_size=4))
     case['inc'] = draw(st.one_of(gen.fl(0.05, 1.), st.just(1.)))
+    case['prelude'] = None
+    if case['forces'] and draw(st.integers(0, 2)) == 0:
+        case['prelude'] = [{k: v for k, v in draw(cforce()).items() if k != 'inc'} for _ in case['forces']]
+        case['prelude_inc'] = draw(st.sampled_from([1., 0.3]))
     n2 = case['n2']
     axial = draw(st.sampled_from(['none', 'Fc', 'Nxxtop']))
     if axial == 'Fc':
